@@ -645,8 +645,11 @@ func detachOn[T any](bufferSize int, onUpstream, onDownstream bool) func(Observa
 			}
 
 			return func() {
+				// stop() must run even when a teardown upstream panics: otherwise the hand-off
+				// channel is never closed and the goroutine above stays blocked on it.
+				defer stop()
+
 				subscriptions.Unsubscribe()
-				stop()
 			}
 		})
 	}
